@@ -59,6 +59,8 @@ def gen(rng, tier):
         case['red'] = {'limit_bytes': lb, 'min': minth, 'max': maxth, 'qlimit': maxth + rng.choice([1, 2, 5]) * unit,
                        'maxp': rng.choice([0.1, 0.5, 1.0]), 'wf': rng.choice([0, 1, 2, 3, 5, 9]),
                        'draws': [rng.random() for _ in range(16)]}
+        if rng.random() < 0.08:
+            case['red']['qlimit'] = None         # "never when qlimit is None": RED without a hard limit
         # RED needs a standing queue: compress time
         for x in wl:
             x[0] = x[0] / 16 if mode != 'DISTINCT' else x[0]
@@ -238,7 +240,7 @@ def check(w, case, port, mon):
             if a['out_post'][0] != held:
                 viol.append(('C09.3', 'byte_size is %r when %s leaves at t=%r; bytes actually held: %r' %
                              (a['out_post'][0], a['pkt'], a['out'][1], held)))
-            if red is None and a['out_post'][1] != a['t']:
+            if a['out_post'][1] != a['t']:
                 viol.append(('C09.4', 'packet %s carries per-hop stamp %r under %r; it arrived at this hop at %r' %
                              (a['pkt'], a['out_post'][1], case.get('element_id'), a['t'])))
             continue
@@ -284,9 +286,10 @@ def check(w, case, port, mon):
             q = a['pre'][0] if red.get('limit_bytes') else a['pre'][1]
             alpha = 2.0 ** (-red.get('wf', 9))
             avg = avg * (1 - alpha) + q * alpha
-            near = any(0 < abs(avg - th) <= 1e-9 * max(1.0, abs(th)) for th in (red['min'], red['max'], red['qlimit']))
+            qlim = red['qlimit'] if red['qlimit'] is not None else float('inf')     # None: no hard limit
+            near = any(0 < abs(avg - th) <= 1e-9 * max(1.0, abs(th)) for th in (red['min'], red['max'], qlim))
             if not near:
-                if avg >= red['qlimit']:
+                if avg >= qlim:
                     stats['red_above_qlimit'] = 1
                     if acc:
                         viol.append(('C09.6', 'RED accepted %s although the average queue %r >= qlimit %r' %
